@@ -81,11 +81,10 @@ Proof.
     destruct (find_sub_element_total T TOK newty (n_name cn) target EN) as (r1 & Er1 & F1). rewrite Er1. cbn [bind].
     destruct (find_sub_element_total T TOK newty (n_name cn) U32MAX EN) as (r2 & Er2 & F2). rewrite Er2. cbn [bind].
     assert (M : forall et ixs ver, find_sub_element T newty (n_name cn) ver = Val (Some (et, ixs)) -> path_ok T (snd newty) ixs ->
-                exists m, get_sub_element_version_mask T oldty ixs = Val (Some m)).
-    { intros et ixs ver Hf P. pose proof (rel_ok_nonleaf T _ _ _ _ _ RL Hf) as Es.
-      apply (get_sub_element_version_mask_ok T oldty ixs). rewrite Es. exact P. }
-    assert (K : forall ixs, (exists m, get_sub_element_version_mask T oldty ixs = Val (Some m)) ->
-                exists r, (let* o := get_sub_element_version_mask T oldty ixs in
+                exists m, get_sub_element_version_mask T newty ixs = Val (Some m)).
+    { intros et ixs ver Hf P. apply (get_sub_element_version_mask_ok T newty ixs). exact P. }
+    assert (K : forall ixs, (exists m, get_sub_element_version_mask T newty ixs = Val (Some m)) ->
+                exists r, (let* o := get_sub_element_version_mask T newty ixs in
                            let* vm := unwrap "check_version_compatibility: get_sub_element_version_mask(..).unwrap()" o in
                            if negb (compatible target vm)
                            then let* '(e2, m2) := sub_loop T rec w oldty newty f target rest in Val (CEElem c vm :: e2, N.land vm m2)
